@@ -514,14 +514,18 @@ fn c14(tier: Tier, seed: u64) -> i32 {
 fn c15(tier: Tier, seed: u64) -> i32 {
     let mut ctx = Ctx::new("C15", tier, seed);
     let n = ctx.n(800, 150_000);
-    ctx.run_batch("flush_points", "histories as C14; a flush (one chain or all, sometimes twice, also before any draw) follows recorded draws with probability 0.3/0.6/1.0 (=> a crash point after every draw), chunk sizes {1,2,3,5,8,num_tune,num_draws,larger than both}; after each flush a fresh zarrs reader on a snapshot of the store must see the acknowledged prefix of every chain (all earlier acknowledgements re-checked at every later flush and after finalize); non-trivial = at least one flush", n, |rs, _| {
-        gen_store(rs, "C15", &[Backend::ZarrSync])
+    ctx.run_batch("flush_points", "histories as C14; a flush (one chain or all, sometimes twice, also before any draw) follows recorded draws with probability 0.3/0.6/1.0 (=> a crash point after every draw), chunk sizes {1,2,3,5,8,num_tune,num_draws,larger than both}; after each flush a fresh zarrs reader on a snapshot of the store must see the acknowledged prefix of every chain (all earlier acknowledgements re-checked at every later flush and after finalize); every fifth run uses the real zarrs FilesystemStore on a scratch directory; non-trivial = at least one flush", n, |rs, i| {
+        let mut sc = gen_store(rs, "C15", &[Backend::ZarrSync]);
+        // every fifth run on the real filesystem store (scratch directory under /verif/.scratch)
+        sc.filesystem = i % 5 == 4;
+        sc
     });
     let n2 = ctx.n(400, 80_000);
     ctx.run_batch("store_write_faults", "as above with the k-th store write failing (k seeded over the run's writes): the failing call returns Err without panic and every prefix acknowledged by an earlier flush still reads back", n2, |rs, _| {
         let mut sc = gen_store(rs, "C15", &[Backend::ZarrSync]);
         let mut r = Prng::sub(rs, "storefault");
         sc.fail_write = Some(r.below(400));
+        sc.filesystem = r.chance(0.25);
         sc
     });
     let n3 = ctx.n(250, 25_000);
@@ -555,7 +559,7 @@ fn c15(tier: Tier, seed: u64) -> i32 {
     ctx.finish("fault_enumeration", components_engine_c(), vec![
         "crash = the process stops right after flush() returned; what survives is the store content at that moment (snapshot)".into(),
         "async writer: tokio is not under the simulator; write completion is delayed by seeded real-time sleeps, the verdict only depends on 'did the call wait for its writes'".into(),
-        "filesystem store not covered".into(),
+        "filesystem store: sync writer only (a fifth of the flush-point runs, a quarter of the write-fault runs); the crash point is 'the process stops between two calls', torn or lost file writes inside a call are outside the property's quantifier".into(),
     ], json!({}))
 }
 
